@@ -26,7 +26,8 @@ theorem stepCross_spec (c : SwapCtx) (s : SwapSt) (sc : SwapStep) (fgIn nai : Na
     (sc.nextPrice = ntp ∧ cr.tick = (if c.aToB then nti - 1 else nti) ∧ ∃ start, c.arrays[nai]? = some start ∧
       (((inArrayUsable start c.ts nti && (s.ticks.get nti).initialized) = true ∧
           addLiquidityDelta s.liq (if c.aToB then -(s.ticks.get nti).net else (s.ticks.get nti).net) = .ok cr.liq ∧
-          ∃ ga gb, cr.ticks = s.ticks.set nti (nextTickCrossUpdate (s.ticks.get nti) ga gb c.rewards)) ∨
+          cr.ticks = s.ticks.set nti (nextTickCrossUpdate (s.ticks.get nti) (if c.aToB then fgIn else c.fgOtherA)
+            (if c.aToB then c.fgOtherB else fgIn) c.rewards)) ∨
        ((inArrayUsable start c.ts nti && (s.ticks.get nti).initialized) = false ∧ cr.liq = s.liq ∧ cr.ticks = s.ticks))) ∨
     (sc.nextPrice ≠ ntp ∧ sc.nextPrice ≠ s.price ∧ cr.tick = ti sc.nextPrice ∧ cr.liq = s.liq ∧ cr.ticks = s.ticks) ∨
     (sc.nextPrice ≠ ntp ∧ sc.nextPrice = s.price ∧ cr.tick = s.tick ∧ cr.liq = s.liq ∧ cr.ticks = s.ticks) := by
@@ -50,7 +51,7 @@ theorem stepCross_spec (c : SwapCtx) (s : SwapSt) (sc : SwapStep) (fgIn nai : Na
           split at h
           · cases h
           · cases h
-            exact ⟨hp, rfl, start, rfl, Or.inl ⟨hti, rfl, _, _, rfl⟩⟩
+            exact ⟨hp, rfl, start, rfl, Or.inl ⟨hti, rfl, rfl⟩⟩
       · rw [if_neg hti] at h
         simp only [] at h
         split at h
@@ -71,6 +72,7 @@ theorem swapStep_parts (c : SwapCtx) (s s' : SwapSt) (nai : Nat) (nti : Int) (nt
         (s.fm.updateVolAcc.boundedTarget tgt s.liq).1 c.isInput c.aToB = .ok sc ∧
       stepCross c s sc fg nai nti ntp = .ok cr ∧
       s'.price = sc.nextPrice ∧ s'.tick = cr.tick ∧ s'.liq = cr.liq ∧ s'.ticks = cr.ticks ∧
+      (fg = (calculateFees sc.feeAmount c.protoRate s.liq s.protoFee s.fgIn).2 ∧ s'.fgIn = fg) ∧
       (((s.fm.updateVolAcc.boundedTarget tgt s.liq).2 = false ∧ s'.fm = s.fm.updateVolAcc.advance) ∨
         s.fm.updateVolAcc.advanceAfterSkip sc.nextPrice ntp nti = .ok s'.fm) ∧
       s'.remaining ≤ s.remaining := by
@@ -93,7 +95,7 @@ theorem swapStep_parts (c : SwapCtx) (s s' : SwapSt) (nai : Nat) (nti : Int) (nt
           · cases h
           · rename_i fm' hfm'
             cases h
-            refine ⟨sc, _, cr, hsc, hcr, rfl, rfl, rfl, rfl, ?_, hle⟩
+            refine ⟨sc, _, cr, hsc, hcr, rfl, rfl, rfl, rfl, ⟨rfl, rfl⟩, ?_, hle⟩
             by_cases hb : (s.fm.updateVolAcc.boundedTarget tgt s.liq).2 = true
             · right
               rw [hb] at hfm'
@@ -159,17 +161,40 @@ theorem cross_upd_same (t : TickData) (ga gb : Nat) (rw : List RewardInfo) :
   unfold nextTickCrossUpdate
   exact ⟨rfl, rfl, rfl⟩
 
-theorem cross_facts (c : SwapCtx) (ps : List (Nat × PositionD)) (s : SwapSt) (liq' : Nat) (ticks' : TickMap) (start nti : Int)
+/-- a tick the loop reaches but does not cross is not initialized: an initialized tick is a grid tick
+    inside the bounds, hence a slot of the array the search reported it in -/
+theorem not_init_of_not_crossed (c : SwapCtx) (ps : List (Nat × PositionD)) (s : SwapSt) (start nti : Int)
+    (ok : CtxOK c) (tf : TickFacts s.ticks ps c.ts) (hst : start % (c.ts : Int) = 0)
+    (h1 : start - (c.ts : Int) < nti) (h2 : nti < start + 88 * (c.ts : Int))
+    (hno : (inArrayUsable start c.ts nti && (s.ticks.get nti).initialized) = false) : initAt s.ticks nti = false := by
+  have hT : ((TICK_ARRAY_SIZE : Nat) : Int) = 88 := rfl
+  cases hi : initAt s.ticks nti with
+  | false => rfl
+  | true =>
+    exfalso
+    obtain ⟨g1, g2, g3⟩ := init_grid s.ticks ps c.ts tf nti hi
+    have hge := C10.grid_ge start nti c.ts ok.ts hst g1 h1
+    unfold initAt at hi
+    rw [hi] at hno
+    have hu : inArrayUsable start c.ts nti = true := by
+      unfold inArrayUsable isUsableTick
+      rw [hT]
+      rw [decide_eq_true (show nti ≥ start from hge), decide_eq_true h2, decide_eq_true g2, decide_eq_true g3, decide_eq_true g1]
+      rfl
+    rw [hu] at hno
+    cases hno
+
+theorem cross_facts (c : SwapCtx) (ps : List (Nat × PositionD)) (s : SwapSt) (liq' : Nat) (ticks' : TickMap) (start nti : Int) (ga gb : Nat)
     (ok : CtxOK c) (tf : TickFacts s.ticks ps c.ts) (hst : start % (c.ts : Int) = 0)
     (h1 : start - (c.ts : Int) < nti) (h2 : nti < start + 88 * (c.ts : Int)) (hL : s.liq ≤ U128_MAX)
     (h : ((inArrayUsable start c.ts nti && (s.ticks.get nti).initialized) = true ∧
           addLiquidityDelta s.liq (if c.aToB then -(s.ticks.get nti).net else (s.ticks.get nti).net) = .ok liq' ∧
-          ∃ ga gb, ticks' = s.ticks.set nti (nextTickCrossUpdate (s.ticks.get nti) ga gb c.rewards)) ∨
+          ticks' = s.ticks.set nti (nextTickCrossUpdate (s.ticks.get nti) ga gb c.rewards)) ∨
        ((inArrayUsable start c.ts nti && (s.ticks.get nti).initialized) = false ∧ liq' = s.liq ∧ ticks' = s.ticks)) :
     (liq' : Int) = s.liq + (if c.aToB then -(sumBy (netContrib nti) ps) else sumBy (netContrib nti) ps) ∧
     TickFacts ticks' ps c.ts ∧ liq' ≤ U128_MAX := by
   have hT : ((TICK_ARRAY_SIZE : Nat) : Int) = 88 := rfl
-  rcases h with ⟨_, hadd, ga, gb, hticks⟩ | ⟨hno, hl, ht⟩
+  rcases h with ⟨_, hadd, hticks⟩ | ⟨hno, hl, ht⟩
   · obtain ⟨e1, e2⟩ := addLiq_spec _ _ _ hadd hL
     refine ⟨?_, ?_, e2⟩
     · rw [e1, tf.net nti]
@@ -212,13 +237,29 @@ theorem cross_facts (c : SwapCtx) (ps : List (Nat × PositionD)) (s : SwapSt) (l
     · rw [if_neg hd, Int.add_zero]
 
 
+/-- what one iteration did, in the terms the fee and reward accounting needs: the input-token fee
+    growth advanced by the step's LP fee share; then either the tick `nti` was reached (flipped iff
+    initialized, nothing initialized skipped on the way) or the tick index moved without passing
+    any initialized tick -/
+def Shape (c : SwapCtx) (s s' : SwapSt) (nti : Int) : Prop :=
+  (∃ fee, s'.fgIn = (calculateFees fee c.protoRate s.liq s.protoFee s.fgIn).2) ∧
+  ((s'.tick = (if c.aToB then nti - 1 else nti) ∧
+      ((initAt s.ticks nti = true ∧ s'.ticks = s.ticks.set nti (nextTickCrossUpdate (s.ticks.get nti)
+          (if c.aToB then s'.fgIn else c.fgOtherA) (if c.aToB then c.fgOtherB else s'.fgIn) c.rewards)) ∨
+       (initAt s.ticks nti = false ∧ s'.ticks = s.ticks)) ∧
+      (if c.aToB then nti ≤ s.tick ∧ ∀ x, nti < x → x ≤ s.tick → x % (c.ts : Int) = 0 → initAt s.ticks x = false
+       else s.tick < nti ∧ ∀ x, s.tick < x → x < nti → x % (c.ts : Int) = 0 → initAt s.ticks x = false)) ∨
+   (s'.ticks = s.ticks ∧
+      (if c.aToB then s'.tick ≤ s.tick ∧ ∀ x, s'.tick < x → x ≤ s.tick → x % (c.ts : Int) = 0 → initAt s.ticks x = false
+       else s.tick ≤ s'.tick ∧ ∀ x, s.tick < x → x ≤ s'.tick → x % (c.ts : Int) = 0 → initAt s.ticks x = false)))
+
 /-- one a→b iteration keeps the loop invariant; while the target is not reached the aim stays valid -/
 theorem step_down (c : SwapCtx) (ps : List (Nat × PositionD)) (p0 : Nat) (s s' : SwapSt) (nai : Nat) (nti : Int)
     (ok : CtxOK c) (hd : c.aToB = true) (P : Path c ps p0 s) (A : Aim c s nai nti)
     (h : swapStep c s nai nti (sp nti) (max c.limit (sp nti)) = .ok s') :
-    Path c ps p0 s' ∧ (s'.price ≠ max c.limit (sp nti) → Aim c s' nai nti) := by
+    Path c ps p0 s' ∧ (s'.price ≠ max c.limit (sp nti) → Aim c s' nai nti) ∧ Shape c s s' nti := by
   have hfm0 : FmOK true s.tick s.fm := by rw [← hd]; exact P.fm
-  obtain ⟨sc, fg, cr, hsc, hcr, ep, et, el, etk, efm, erem⟩ := swapStep_parts c s s' nai nti (sp nti) _ h
+  obtain ⟨sc, fg, cr, hsc, hcr, ep, et, el, etk, efg, efm, erem⟩ := swapStep_parts c s s' nai nti (sp nti) _ h
   unfold Aim at A
   rw [if_pos hd] at A
   obtain ⟨n1, n2, ⟨st, hst, l1, l2⟩, n3, hno⟩ := A
@@ -257,12 +298,13 @@ theorem step_down (c : SwapCtx) (ps : List (Nat × PositionD)) (p0 : Nat) (s s' 
   have hrem' : s'.remaining ≤ U64_MAX := Nat.le_trans erem P.remU
   have hlim' : if c.aToB then c.limit ≤ s'.price ∧ s'.price ≤ p0 else p0 ≤ s'.price ∧ s'.price ≤ c.limit := by
     rw [if_pos hd, ep]; exact ⟨hgl, Nat.le_trans hdir.2 hlim.2⟩
+  have hfee : ∃ fee, s'.fgIn = (calculateFees fee c.protoRate s.liq s.protoFee s.fgIn).2 := ⟨sc.feeAmount, by rw [efg.2, efg.1]⟩
   rcases stepCross_spec c s sc fg nai nti (sp nti) cr hcr with
     ⟨hp, htick, start, hstart, hcase⟩ | ⟨hp, hq, htick, hliq, hticks⟩ | ⟨hp, hq, htick, hliq, hticks⟩
   · -- the step reached the tick: cross it
     rw [hst] at hstart
     cases hstart
-    obtain ⟨e1, tf', e2⟩ := cross_facts c ps s cr.liq cr.ticks st nti ok P.tf (ok.aligned nai st hst) l1 l2 P.liqU hcase
+    obtain ⟨e1, tf', e2⟩ := cross_facts c ps s cr.liq cr.ticks st nti _ _ ok P.tf (ok.aligned nai st hst) l1 l2 P.liqU hcase
     rw [if_pos hd] at e1 htick
     have hcov := cover_const s.ticks ps c.ts P.tf nti s.tick n3 hno
     have hcp := (C05.cross_preserves nti (s.liq : Int) ps P.tf.ordered).1 (by rw [P.liq, hcov])
@@ -271,7 +313,15 @@ theorem step_down (c : SwapCtx) (ps : List (Nat × PositionD)) (p0 : Nat) (s s' 
               tf := by rw [etk]; exact tf',
               tp := by rw [et, htick, ep, hp]; exact TP_cross_down nti n1 n2,
               lim := hlim', fm := hfmN (Or.inl ⟨hp, by rw [et, htick, if_pos rfl], n1, n2⟩), remU := hrem', liqU := by rw [el]; exact e2 }
-    · intro hne; exfalso; apply hne
+    · refine ⟨?_, hfee, Or.inl ⟨by rw [et, htick, if_pos hd], ?_, by rw [if_pos hd]; exact ⟨n3, hno⟩⟩⟩
+      rotate_left
+      · rcases hcase with ⟨hti, _, htk⟩ | ⟨hno2, _, htk⟩
+        · left
+          simp only [Bool.and_eq_true] at hti
+          exact ⟨hti.2, by rw [etk, htk, efg.2]⟩
+        · right
+          exact ⟨not_init_of_not_crossed c ps s st nti ok P.tf (ok.aligned nai st hst) l1 l2 hno2, by rw [etk, htk]⟩
+      intro hne; exfalso; apply hne
       rw [ep]
       have h1 := hdir.1
       have h2 : sp nti ≤ max c.limit (sp nti) := Nat.le_max_right _ _
@@ -286,7 +336,9 @@ theorem step_down (c : SwapCtx) (ps : List (Nat × PositionD)) (p0 : Nat) (s s' 
               tf := by rw [etk, hticks]; exact P.tf,
               tp := by rw [et, htick, ep]; exact TP_ti _ hp'b.1 hp'b.2,
               lim := hlim', fm := hfmN (Or.inr (Or.inl ⟨hp, hq, by rw [et, htick]⟩)), remU := hrem', liqU := by rw [el, hliq]; exact P.liqU }
-    · intro _
+    · refine ⟨?_, hfee, Or.inr ⟨by rw [etk, hticks], by
+        rw [if_pos hd, et, htick]; exact ⟨hb.2, fun x hx1 hx2 hx3 => hno x (by omega) hx2 hx3⟩⟩⟩
+      intro _
       unfold Aim
       rw [if_pos hd, et, htick, etk, hticks]
       exact ⟨n1, n2, ⟨st, hst, l1, l2⟩, hb.1, fun x hx1 hx2 hx3 => hno x hx1 (by omega) hx3⟩
@@ -296,7 +348,9 @@ theorem step_down (c : SwapCtx) (ps : List (Nat × PositionD)) (p0 : Nat) (s s' 
               tf := by rw [etk, hticks]; exact P.tf,
               tp := by rw [et, htick, ep, hq]; exact P.tp,
               lim := hlim', fm := hfmN (Or.inr (Or.inr ⟨hp, hq, by rw [et, htick]⟩)), remU := hrem', liqU := by rw [el, hliq]; exact P.liqU }
-    · intro _
+    · refine ⟨?_, hfee, Or.inr ⟨by rw [etk, hticks], by
+        rw [if_pos hd, et, htick]; exact ⟨Int.le_refl _, fun x hx1 hx2 _ => by omega⟩⟩⟩
+      intro _
       unfold Aim
       rw [if_pos hd, et, htick, etk, hticks]
       exact ⟨n1, n2, ⟨st, hst, l1, l2⟩, n3, hno⟩
@@ -306,10 +360,10 @@ theorem step_down (c : SwapCtx) (ps : List (Nat × PositionD)) (p0 : Nat) (s s' 
 theorem step_up (c : SwapCtx) (ps : List (Nat × PositionD)) (p0 : Nat) (s s' : SwapSt) (nai : Nat) (nti : Int)
     (ok : CtxOK c) (hd : ¬ c.aToB = true) (P : Path c ps p0 s) (A : Aim c s nai nti)
     (h : swapStep c s nai nti (sp nti) (min c.limit (sp nti)) = .ok s') :
-    Path c ps p0 s' ∧ (s'.price ≠ min c.limit (sp nti) → Aim c s' nai nti) := by
+    Path c ps p0 s' ∧ (s'.price ≠ min c.limit (sp nti) → Aim c s' nai nti) ∧ Shape c s s' nti := by
   have hd' : c.aToB = false := by cases hb : c.aToB <;> simp_all
   have hfm0 : FmOK false s.tick s.fm := by rw [← hd']; exact P.fm
-  obtain ⟨sc, fg, cr, hsc, hcr, ep, et, el, etk, efm, erem⟩ := swapStep_parts c s s' nai nti (sp nti) _ h
+  obtain ⟨sc, fg, cr, hsc, hcr, ep, et, el, etk, efg, efm, erem⟩ := swapStep_parts c s s' nai nti (sp nti) _ h
   unfold Aim at A
   rw [if_neg hd] at A
   obtain ⟨n1, n2, ⟨st, hst, l1, l2⟩, n3, hno⟩ := A
@@ -350,11 +404,12 @@ theorem step_up (c : SwapCtx) (ps : List (Nat × PositionD)) (p0 : Nat) (s s' : 
   have hrem' : s'.remaining ≤ U64_MAX := Nat.le_trans erem P.remU
   have hlim' : if c.aToB then c.limit ≤ s'.price ∧ s'.price ≤ p0 else p0 ≤ s'.price ∧ s'.price ≤ c.limit := by
     rw [if_neg hd, ep]; exact ⟨Nat.le_trans hlim.1 hdir.1, hgl⟩
+  have hfee : ∃ fee, s'.fgIn = (calculateFees fee c.protoRate s.liq s.protoFee s.fgIn).2 := ⟨sc.feeAmount, by rw [efg.2, efg.1]⟩
   rcases stepCross_spec c s sc fg nai nti (sp nti) cr hcr with
     ⟨hp, htick, start, hstart, hcase⟩ | ⟨hp, hq, htick, hliq, hticks⟩ | ⟨hp, hq, htick, hliq, hticks⟩
   · rw [hst] at hstart
     cases hstart
-    obtain ⟨e1, tf', e2⟩ := cross_facts c ps s cr.liq cr.ticks st nti ok P.tf (ok.aligned nai st hst) l1 l2 P.liqU hcase
+    obtain ⟨e1, tf', e2⟩ := cross_facts c ps s cr.liq cr.ticks st nti _ _ ok P.tf (ok.aligned nai st hst) l1 l2 P.liqU hcase
     rw [if_neg hd] at e1 htick
     have hcov := cover_const s.ticks ps c.ts P.tf s.tick (nti - 1) (by omega) (fun x hx1 hx2 hx3 => hno x hx1 (by omega) hx3)
     have hcp := (C05.cross_preserves nti (s.liq : Int) ps P.tf.ordered).2 (by rw [P.liq, hcov])
@@ -363,7 +418,15 @@ theorem step_up (c : SwapCtx) (ps : List (Nat × PositionD)) (p0 : Nat) (s s' : 
               tf := by rw [etk]; exact tf',
               tp := by rw [et, htick, ep, hp]; exact TP_cross_up nti n1 n2,
               lim := hlim', fm := hfmN (Or.inl ⟨hp, by rw [et, htick, if_neg (by simp)], n1, n2⟩), remU := hrem', liqU := by rw [el]; exact e2 }
-    · intro hne; exfalso; apply hne
+    · refine ⟨?_, hfee, Or.inl ⟨by rw [et, htick, if_neg hd], ?_, by rw [if_neg hd]; exact ⟨n3, hno⟩⟩⟩
+      rotate_left
+      · rcases hcase with ⟨hti, _, htk⟩ | ⟨hno2, _, htk⟩
+        · left
+          simp only [Bool.and_eq_true] at hti
+          exact ⟨hti.2, by rw [etk, htk, efg.2]⟩
+        · right
+          exact ⟨not_init_of_not_crossed c ps s st nti ok P.tf (ok.aligned nai st hst) l1 l2 hno2, by rw [etk, htk]⟩
+      intro hne; exfalso; apply hne
       rw [ep]
       have h1 := hdir.2
       have h2 : min c.limit (sp nti) ≤ sp nti := Nat.min_le_right _ _
@@ -377,7 +440,9 @@ theorem step_up (c : SwapCtx) (ps : List (Nat × PositionD)) (p0 : Nat) (s s' : 
               tf := by rw [etk, hticks]; exact P.tf,
               tp := by rw [et, htick, ep]; exact TP_ti _ hp'b.1 hp'b.2,
               lim := hlim', fm := hfmN (Or.inr (Or.inl ⟨hp, hq, by rw [et, htick]⟩)), remU := hrem', liqU := by rw [el, hliq]; exact P.liqU }
-    · intro _
+    · refine ⟨?_, hfee, Or.inr ⟨by rw [etk, hticks], by
+        rw [if_neg hd, et, htick]; exact ⟨hb.1, fun x hx1 hx2 hx3 => hno x hx1 (by omega) hx3⟩⟩⟩
+      intro _
       unfold Aim
       rw [if_neg hd, et, htick, etk, hticks]
       exact ⟨n1, n2, ⟨st, hst, l1, l2⟩, hb.2, fun x hx1 hx2 hx3 => hno x (by omega) hx2 hx3⟩
@@ -386,7 +451,9 @@ theorem step_up (c : SwapCtx) (ps : List (Nat × PositionD)) (p0 : Nat) (s s' : 
               tf := by rw [etk, hticks]; exact P.tf,
               tp := by rw [et, htick, ep, hq]; exact P.tp,
               lim := hlim', fm := hfmN (Or.inr (Or.inr ⟨hp, hq, by rw [et, htick]⟩)), remU := hrem', liqU := by rw [el, hliq]; exact P.liqU }
-    · intro _
+    · refine ⟨?_, hfee, Or.inr ⟨by rw [etk, hticks], by
+        rw [if_neg hd, et, htick]; exact ⟨Int.le_refl _, fun x hx1 hx2 _ => by omega⟩⟩⟩
+      intro _
       unfold Aim
       rw [if_neg hd, et, htick, etk, hticks]
       exact ⟨n1, n2, ⟨st, hst, l1, l2⟩, n3, hno⟩
@@ -481,18 +548,20 @@ theorem aim_of_search (c : SwapCtx) (ps : List (Nat × PositionD)) (p0 : Nat) (s
     · omega
     · omega
 
-/-- the two nested loops keep the invariant -/
-theorem loop_path (c : SwapCtx) (ps : List (Nat × PositionD)) (p0 : Nat) (ok : CtxOK c) :
+/-- the two nested loops keep the invariant `Path`, and with it any predicate `Q` on the loop state
+    that every iteration of the described `Shape` preserves -/
+theorem loop_path_inv (c : SwapCtx) (ps : List (Nat × PositionD)) (p0 : Nat) (ok : CtxOK c) (Q : SwapSt → Prop)
+    (hQ : ∀ s s' nai nti, Path c ps p0 s → Aim c s nai nti → Shape c s s' nti → Path c ps p0 s' → Q s → Q s') :
     ∀ (fuel : Nat) (s : SwapSt) (inner : Option (Nat × Int × Nat × Nat)) (s' : SwapSt),
-      Path c ps p0 s →
+      Path c ps p0 s → Q s →
       (∀ nai nti ntp tgt, inner = some (nai, nti, ntp, tgt) →
         Aim c s nai nti ∧ ntp = sp nti ∧ tgt = (if c.aToB then max c.limit (sp nti) else min c.limit (sp nti))) →
-      swapLoop c fuel s inner = .ok s' → Path c ps p0 s' := by
+      swapLoop c fuel s inner = .ok s' → Path c ps p0 s' ∧ Q s' := by
   intro fuel
   induction fuel with
-  | zero => intro s inner s' _ _ h; unfold swapLoop at h; cases h
+  | zero => intro s inner s' _ _ _ h; unfold swapLoop at h; cases h
   | succ fuel ih =>
-    intro s inner s' P hin h
+    intro s inner s' P q hin h
     cases inner with
     | none =>
       unfold swapLoop at h
@@ -504,13 +573,13 @@ theorem loop_path (c : SwapCtx) (ps : List (Nat × PositionD)) (p0 : Nat) (ok : 
         | ok r =>
           rw [hs] at h
           simp only [] at h
-          refine ih s _ s' P ?_ h
+          refine ih s _ s' P q ?_ h
           intro nai nti ntp tgt he
           cases he
           exact ⟨aim_of_search c ps p0 s ok P hc.2 r hs, rfl, rfl⟩
-      · rw [if_neg hc] at h; cases h; exact P
-    | some q =>
-      obtain ⟨nai, nti, ntp, tgt⟩ := q
+      · rw [if_neg hc] at h; cases h; exact ⟨P, q⟩
+    | some w =>
+      obtain ⟨nai, nti, ntp, tgt⟩ := w
       obtain ⟨A, hntp, htgt⟩ := hin nai nti ntp tgt rfl
       unfold swapLoop at h
       cases hst : swapStep c s nai nti ntp tgt with
@@ -518,23 +587,33 @@ theorem loop_path (c : SwapCtx) (ps : List (Nat × PositionD)) (p0 : Nat) (ok : 
       | ok s1 =>
         rw [hst] at h
         simp only [] at h
-        have hstep : Path c ps p0 s1 ∧ (s1.price ≠ tgt → Aim c s1 nai nti) := by
+        have hstep : Path c ps p0 s1 ∧ (s1.price ≠ tgt → Aim c s1 nai nti) ∧ Shape c s s1 nti := by
           rw [hntp] at hst
           by_cases hd : c.aToB = true
           · rw [if_pos hd] at htgt; rw [htgt] at hst ⊢
             exact step_down c ps p0 s s1 nai nti ok hd P A hst
           · rw [if_neg hd] at htgt; rw [htgt] at hst ⊢
             exact step_up c ps p0 s s1 nai nti ok hd P A hst
+        have q1 : Q s1 := hQ s s1 nai nti P A hstep.2.2 hstep.1 q
         by_cases hc : (decide (s1.remaining = 0) || decide (s1.price = tgt)) = true
         · rw [if_pos hc] at h
-          exact ih s1 none s' hstep.1 (fun _ _ _ _ he => by cases he) h
+          exact ih s1 none s' hstep.1 q1 (fun _ _ _ _ he => by cases he) h
         · rw [if_neg hc] at h
           simp only [Bool.or_eq_true, decide_eq_true_eq, not_or] at hc
-          refine ih s1 _ s' hstep.1 ?_ h
+          refine ih s1 _ s' hstep.1 q1 ?_ h
           intro nai' nti' ntp' tgt' he
           cases he
-          exact ⟨hstep.2 hc.2, hntp, htgt⟩
+          exact ⟨hstep.2.1 hc.2, hntp, htgt⟩
 
+/-- the two nested loops keep the invariant -/
+theorem loop_path (c : SwapCtx) (ps : List (Nat × PositionD)) (p0 : Nat) (ok : CtxOK c) :
+    ∀ (fuel : Nat) (s : SwapSt) (inner : Option (Nat × Int × Nat × Nat)) (s' : SwapSt),
+      Path c ps p0 s →
+      (∀ nai nti ntp tgt, inner = some (nai, nti, ntp, tgt) →
+        Aim c s nai nti ∧ ntp = sp nti ∧ tgt = (if c.aToB then max c.limit (sp nti) else min c.limit (sp nti))) →
+      swapLoop c fuel s inner = .ok s' → Path c ps p0 s' := by
+  intro fuel s inner s' P hin h
+  exact (loop_path_inv c ps p0 ok (fun _ => True) (fun _ _ _ _ _ _ _ _ _ => trivial) fuel s inner s' P trivial hin h).1
 
 /-! ### the whole swap -/
 
@@ -572,7 +651,7 @@ def FmKind (af : Option AfInfo) (fm : FeeMgr) : Prop :=
 
 theorem step_kind (c : SwapCtx) (s s' : SwapSt) (nai : Nat) (nti : Int) (ntp tgt : Nat) (af : Option AfInfo)
     (hk : FmKind af s.fm) (h : swapStep c s nai nti ntp tgt = .ok s') : FmKind af s'.fm := by
-  obtain ⟨sc, _, _, _, _, _, _, _, _, hfm, _⟩ := swapStep_parts c s s' nai nti ntp tgt h
+  obtain ⟨sc, _, _, _, _, _, _, _, _, _, hfm, _⟩ := swapStep_parts c s s' nai nti ntp tgt h
   cases hf : s.fm with
   | static r =>
     rw [hf] at hfm hk
